@@ -10,6 +10,7 @@ import LLTD.Generated.TranslatedWire
 import LLTD.Model.Block
 import LLTD.Lemmas.XVals
 import LLTD.Lemmas.Bytes
+import LLTD.Lemmas.Hello
 
 namespace LLTD.TWEq
 open LLTD LLTD.CSem
@@ -155,3 +156,224 @@ theorem htonl_bytes (env : TW.Env) (v : Nat) (h : v < 4294967296) : le 4 (TW.llt
   simp only [TW.lltd_htonl, is_le]
   simp only [show ((1 : Int) != 0) = true from rfl, if_true, bswap32_val env v h]
   exact le4_swap v h
+
+/-! ## lltdWire.c -/
+
+theorem wr_skip (x l bs : List Nat) (k : Nat) (h : x.length ≤ k) : wr (x ++ l) k bs = x ++ wr l (k - x.length) bs := by
+  have := wr_off x l bs (k - x.length)
+  rwa [Nat.add_sub_cancel' h] at this
+
+theorem wr_here (m b bs : List Nat) (h : m.length = bs.length) : wr (m ++ b) 0 bs = bs ++ b := by
+  simp [wr, h]
+
+theorem wr_skip_cons (a : Nat) (l bs : List Nat) (k : Nat) (h : 1 ≤ k) : wr (a :: l) k bs = a :: wr l (k - 1) bs := by
+  have := wr_skip [a] l bs k (by simpa using h)
+  simpa using this
+
+theorem setHelloHeader_eq (env : TW.Env) (pre g c a rest app cur : List Nat) (gen : Nat)
+    (hg : g.length = 2) (hc : c.length = 6) (ha : a.length = 6) (happ : app.length = 6) (hcur : cur.length = 6) (hgen : gen < 65536) :
+    (TW.setHelloHeader env (pre ++ (g ++ (c ++ (a ++ rest)))) pre.length app cur gen).buffer = pre ++ (helloHeader gen cur app ++ rest)
+    ∧ (TW.setHelloHeader env (pre ++ (g ++ (c ++ (a ++ rest)))) pre.length app cur gen).ret = 14 := by
+  simp only [TW.setHelloHeader, Nat.zero_add, htons_bytes env gen hgen, rd_zero_all _ 6 happ, rd_zero_all _ 6 hcur, wr_off, wr_off0]
+  have hbe : (be 2 gen).length = 2 := be_length 2 gen
+  simp (disch := omega) only [wr_skip, wr_here, hg, hc, ha, Nat.sub_self, Nat.reduceSub, helloHeader, List.append_assoc, and_self]
+
+theorem setLltdHeaderEx_eq (env : TW.Env) (d s e v t o rd' rs' q rest es ed rs rd : List Nat) (r seq op tos : Nat)
+    (hd : d.length = 6) (hs : s.length = 6) (he : e.length = 2) (hv : v.length = 1) (ht : t.length = 1) (ho : o.length = 1)
+    (hrd' : rd'.length = 6) (hrs' : rs'.length = 6) (hq : q.length = 2)
+    (hes : es.length = 6) (hed : ed.length = 6) (hrs : rs.length = 6) (hrd : rd.length = 6)
+    (hseq : seq < 65536) (hop : op < 256) (htos : tos < 256) :
+    (TW.setLltdHeaderEx env (d ++ (s ++ (e ++ (v ++ (t ++ ([r] ++ (o ++ (rd' ++ (rs' ++ (q ++ rest)))))))))) es ed rs rd seq op tos).buffer
+      = lltdHeader r ed es rd rs seq op tos ++ rest
+    ∧ (TW.setLltdHeaderEx env (d ++ (s ++ (e ++ (v ++ (t ++ ([r] ++ (o ++ (rd' ++ (rs' ++ (q ++ rest)))))))))) es ed rs rd seq op tos).ret = 32 := by
+  simp only [TW.setLltdHeaderEx, Nat.zero_add, htons_bytes env seq hseq, htons_bytes env 35033 (by decide), rd_zero_all _ 6 hes, rd_zero_all _ 6 hed,
+    rd_zero_all _ 6 hrs, rd_zero_all _ 6 hrd, le_one, Nat.mod_eq_of_lt hop, Nat.mod_eq_of_lt htos]
+  have hbe : (be 2 seq).length = 2 := be_length 2 seq
+  have hbe' : (be 2 35033).length = 2 := be_length 2 35033
+  have h1 : ([r] : List Nat).length = 1 := rfl
+  simp (disch := (first | omega | simp [*])) only [wr_skip, wr_skip_cons, wr_zero_one, wr_here, hd, hs, he, hv, ht, ho, hrd', hrs', hq, hes, hed, hrs, hrd, hbe, hbe', h1,
+    List.length_singleton, List.length_cons, List.length_nil, Nat.sub_self, Nat.reduceSub, Nat.reduceAdd, lltdHeader, X.etherType_val,
+    List.append_assoc, List.cons_append, List.nil_append, List.singleton_append, and_self, Nat.mod_eq_of_lt]
+
+
+theorem setLltdHeader_eq (env : TW.Env) (d s e v t o rd' rs' q rest src dst : List Nat) (r seq op tos : Nat)
+    (hd : d.length = 6) (hs : s.length = 6) (he : e.length = 2) (hv : v.length = 1) (ht : t.length = 1) (ho : o.length = 1)
+    (hrd' : rd'.length = 6) (hrs' : rs'.length = 6) (hq : q.length = 2)
+    (hsrc : src.length = 6) (hdst : dst.length = 6)
+    (hseq : seq < 65536) (hop : op < 256) (htos : tos < 256) :
+    (TW.setLltdHeader env (d ++ (s ++ (e ++ (v ++ (t ++ ([r] ++ (o ++ (rd' ++ (rs' ++ (q ++ rest)))))))))) src dst seq op tos).buffer
+      = lltdHeader r dst src dst src seq op tos ++ rest
+    ∧ (TW.setLltdHeader env (d ++ (s ++ (e ++ (v ++ (t ++ ([r] ++ (o ++ (rd' ++ (rs' ++ (q ++ rest)))))))))) src dst seq op tos).ret = 32 := by
+  simp only [TW.setLltdHeader, Nat.zero_add, htons_bytes env seq hseq, htons_bytes env 35033 (by decide), rd_zero_all _ 6 hsrc, rd_zero_all _ 6 hdst,
+    le_one, Nat.mod_eq_of_lt hop, Nat.mod_eq_of_lt htos]
+  have hbe : (be 2 seq).length = 2 := be_length 2 seq
+  have hbe' : (be 2 35033).length = 2 := be_length 2 35033
+  have h1 : ([r] : List Nat).length = 1 := rfl
+  simp (disch := (first | omega | simp [*])) only [wr_skip, wr_skip_cons, wr_zero_one, wr_here, hd, hs, he, hv, ht, ho, hrd', hrs', hq, hsrc, hdst, hbe, hbe', h1,
+    List.length_singleton, List.length_cons, List.length_nil, Nat.sub_self, Nat.reduceSub, Nat.reduceAdd, lltdHeader, X.etherType_val,
+    List.append_assoc, List.cons_append, List.nil_append, List.singleton_append, and_self, Nat.mod_eq_of_lt]
+
+/-- the hypotheses are satisfiable: a zeroed 40-byte buffer is such a concatenation, and the translated function stores the model's header in it -/
+example (env : TW.Env) :
+    (TW.setLltdHeaderEx env (List.replicate 40 0) [2,0,0,0,0,1] [255,255,255,255,255,255] [2,0,0,0,0,1] [255,255,255,255,255,255] 0 1 0).buffer
+      = lltdHeader 0 [255,255,255,255,255,255] [2,0,0,0,0,1] [255,255,255,255,255,255] [2,0,0,0,0,1] 0 1 0 ++ List.replicate 8 0 :=
+  (setLltdHeaderEx_eq env (List.replicate 6 0) (List.replicate 6 0) [0,0] [0] [0] [0] (List.replicate 6 0) (List.replicate 6 0) [0,0]
+    (List.replicate 8 0) _ _ _ _ 0 0 1 0 rfl rfl rfl rfl rfl rfl rfl rfl rfl rfl rfl rfl rfl (by decide) (by decide) (by decide)).1
+
+/-! ## lltdTlvOps.c: the port as the model's attribute record describes it -/
+
+/-- the getters' behaviour for an attribute record `c` / process-wide data `g` (what harness/vport.c does): a failing getter stores
+    nothing and returns non-zero, a succeeding one stores the object representation of the value; getters the Hello does not use keep
+    the behaviour of `base` -/
+def envOf (c : Cfg) (g : Glob) (base : TW.Env) : TW.Env :=
+  { base with
+    get_mac_address := { retI := if c.failMac then -1 else 0, out := if c.failMac then [] else c.mac }
+    get_characteristics_flags := { retN := c.flags }
+    get_if_type := { retI := if c.failIfType then -1 else 0, out := if c.failIfType then [] else le 4 c.iftype }
+    get_ipv4_address := { retI := if c.failIpv4 then -1 else 0, out := if c.failIpv4 then [] else c.ipv4 }
+    get_ipv6_address := { retI := if c.failIpv6 then -1 else 0, out := if c.failIpv6 then [] else c.ipv6 }
+    get_link_speed_100bps := { retI := if c.failSpeed then -1 else 0, out := if c.failSpeed then [] else le 4 c.speed }
+    get_hostname := { retN := if g.hostFull then g.host.length else (g.host.take 32).length, out := g.host }
+    get_wifi_mode := { retI := if c.wifi then 0 else -1, out := if c.wifi then [c.mode] else [] }
+    get_bssid := { retI := if c.failBssid then -1 else 0, out := if c.failBssid then [] else c.bssid }
+    get_ssid := { retN := if c.ssidFull then c.ssid.length else (c.ssid.take 32).length, out := c.ssid }
+    get_wifi_max_rate_0_5mbps := { retI := if c.failRate then -1 else 0, out := if c.failRate then [] else le 2 c.rate }
+    get_wifi_rssi_dbm := { retI := if c.failRssi then -1 else 0, out := if c.failRssi then [] else [toU 8 c.rssi] } }
+
+theorem wr_full (l bs : List Nat) (h : l.length = bs.length) : wr l 0 bs = bs := by simp [wr, ← h]
+
+theorem le_unle (l : List Nat) (hb : isBytes l) : le l.length (unle l) = l := by
+  induction l with
+  | nil => rfl
+  | cons b bs ih =>
+    have hb0 : b < 256 := hb b (by simp)
+    have hbs : isBytes bs := fun x hx => hb x (by simp [hx])
+    simp only [List.length_cons, le, unle]
+    have e1 : (b + 256 * unle bs) % 256 = b := by omega
+    have e2 : (b + 256 * unle bs) / 256 = unle bs := by omega
+    rw [e1, e2, ih hbs]
+
+theorem take_le (n v : Nat) : (le n v).take n = le n v := List.take_of_length_le (by rw [le_length]; exact Nat.le_refl n)
+
+/-- a scalar output parameter the port fills with the object representation of `v` -/
+theorem scalar_ok (n v : Nat) (h : v < 256 ^ n) : unle (wr (le n 0) 0 ((le n v).take n)) = v := by
+  rw [take_le, wr_full _ _ (by simp [le_length]), unle_le n v h]
+
+theorem scalar_fail4 : unle (wr (le 4 0) 0 (([] : List Nat).take 4)) = 0 := by decide
+theorem scalar_fail2 : unle (wr (le 2 0) 0 (([] : List Nat).take 2)) = 0 := by decide
+
+theorem rd_be (n v : Nat) : rd (be n v) 0 n = be n v := rd_zero_all _ n (be_length n v)
+theorem rd_le (n v : Nat) : rd (le n v) 0 n = le n v := rd_zero_all _ n (le_length n v)
+
+section tlvs
+variable (base : TW.Env) (c : Cfg) (g : Glob) (pre rest : List Nat) (w0 w1 : Nat)
+
+theorem setHostIdTLV_eq (hc : CfgOk c) :
+    (TW.setHostIdTLV (envOf c g base) (pre ++ w0 :: w1 :: rest) pre.length).buffer = pre ++ (tlvHostId c ++ rest.drop 6)
+    ∧ (TW.setHostIdTLV (envOf c g base) (pre ++ w0 :: w1 :: rest) pre.length).ret = 8 := by
+  have hm := ourMac_length c hc
+  have hmac : wr [0, 0, 0, 0, 0, 0] 0 ((if c.failMac = true then [] else c.mac).take 6) = c.ourMac := by
+    unfold Cfg.ourMac
+    split
+    · decide
+    · rw [List.take_of_length_le (by rw [hc.mac6]; exact Nat.le_refl 6)]; exact wr_full _ _ (by simp [hc.mac6])
+  simp only [TW.setHostIdTLV, envOf, Nat.zero_add, Nat.add_zero, le_one, wr_off, wr_off0, List.cons_append, List.nil_append, hmac,
+    rd_zero_all _ 6 hm, wr_zero_one, wr_one_one, wr_two, tlvHostId, tlv, hm, X.tlvHostId_val]
+  simp
+
+theorem setCharacteristicsTLV_eq :
+    (TW.setCharacteristicsTLV (envOf c g base) (pre ++ w0 :: w1 :: rest) pre.length).buffer = pre ++ (tlvCharacteristics c ++ rest.drop 4)
+    ∧ (TW.setCharacteristicsTLV (envOf c g base) (pre ++ w0 :: w1 :: rest) pre.length).ret = 6 := by
+  have hv : ((c.flags % 4294967296) <<< (Int.toNat (16 : Int))) % 4294967296 = (c.flags * 65536) % u32 := by
+    have : Int.toNat (16 : Int) = 16 := by decide
+    rw [this, Nat.shiftLeft_eq]; unfold u32
+    have p : (2 : Nat) ^ 16 = 65536 := by rfl
+    rw [p]; omega
+  have hlt : (c.flags * 65536) % u32 < 4294967296 := Nat.mod_lt _ (by decide)
+  simp only [TW.setCharacteristicsTLV, envOf, Nat.zero_add, Nat.add_zero, le_one, wr_off, wr_off0, hv, htonl_bytes _ _ hlt,
+    rd_be, wr_zero_one, wr_one_one, wr_two, tlvCharacteristics, tlv, be_length, X.tlvCharacteristics_val]
+  simp
+
+theorem u32_scalar (fail : Bool) (v : Nat) (hv : v < u32) :
+    unle (wr (le 4 0) 0 ((if fail = true then [] else le 4 v).take 4)) = (if fail = true then 0 else v) := by
+  cases fail
+  · simp only [Bool.false_eq_true, if_false]; exact scalar_ok 4 v (by unfold u32 at hv; omega)
+  · simp only [if_true]; exact scalar_fail4
+
+theorem setPhysicalMediumTLV_eq (hr : c.iftype < u32) :
+    (TW.setPhysicalMediumTLV (envOf c g base) (pre ++ w0 :: w1 :: rest) pre.length).buffer = pre ++ (tlvIfType c ++ rest.drop 4)
+    ∧ (TW.setPhysicalMediumTLV (envOf c g base) (pre ++ w0 :: w1 :: rest) pre.length).ret = 6 := by
+  have hlt : (if c.failIfType = true then 0 else c.iftype) < 4294967296 := by
+    split
+    · decide
+    · unfold u32 at hr; exact hr
+  simp only [TW.setPhysicalMediumTLV, envOf, Nat.zero_add, Nat.add_zero, le_one, wr_off, wr_off0, u32_scalar _ _ hr, htonl_bytes _ _ hlt,
+    rd_be, wr_zero_one, wr_one_one, wr_two, tlvIfType, tlv, be_length, X.tlvIfType_val]
+  simp
+
+theorem setLinkSpeedTLV_eq (hr : c.speed < u32) :
+    (TW.setLinkSpeedTLV (envOf c g base) (pre ++ w0 :: w1 :: rest) pre.length).buffer = pre ++ (tlvSpeed c ++ rest.drop 4)
+    ∧ (TW.setLinkSpeedTLV (envOf c g base) (pre ++ w0 :: w1 :: rest) pre.length).ret = 6 := by
+  have hlt : (if c.failSpeed = true then 0 else c.speed) < 4294967296 := by
+    split
+    · decide
+    · unfold u32 at hr; exact hr
+  simp only [TW.setLinkSpeedTLV, envOf, Nat.zero_add, Nat.add_zero, le_one, wr_off, wr_off0, u32_scalar _ _ hr, htonl_bytes _ _ hlt,
+    rd_be, wr_zero_one, wr_one_one, wr_two, tlvSpeed, tlv, be_length, X.tlvLinkSpeed_val]
+  simp
+
+theorem setIPv4TLV_eq (hc : CfgOk c) (hb : isBytes c.ipv4) :
+    (TW.setIPv4TLV (envOf c g base) (pre ++ w0 :: w1 :: rest) pre.length).buffer = pre ++ (tlvIpv4 c ++ rest.drop 4)
+    ∧ (TW.setIPv4TLV (envOf c g base) (pre ++ w0 :: w1 :: rest) pre.length).ret = 6 := by
+  have hv : le 4 (unle (wr (le 4 0) 0 ((if c.failIpv4 = true then [] else c.ipv4).take 4))) = (if c.failIpv4 = true then zeros 4 else c.ipv4) := by
+    split
+    · decide
+    · rw [List.take_of_length_le (by rw [hc.ipv4]; exact Nat.le_refl 4), wr_full _ _ (by simp [le_length, hc.ipv4])]
+      have := le_unle c.ipv4 hb
+      rwa [hc.ipv4] at this
+  have hl : (if c.failIpv4 = true then zeros 4 else c.ipv4).length = 4 := by
+    split
+    · rfl
+    · exact hc.ipv4
+  simp only [TW.setIPv4TLV, envOf, Nat.zero_add, Nat.add_zero, le_one, wr_off, wr_off0, hv, rd_zero_all _ 4 hl,
+    wr_zero_one, wr_one_one, wr_two, tlvIpv4, tlv, hl, X.tlvIpv4_val]
+  simp
+
+theorem setIPv6TLV_eq (hc : CfgOk c) :
+    (TW.setIPv6TLV (envOf c g base) (pre ++ w0 :: w1 :: rest) pre.length).buffer = pre ++ (tlvIpv6 c ++ rest.drop 16)
+    ∧ (TW.setIPv6TLV (envOf c g base) (pre ++ w0 :: w1 :: rest) pre.length).ret = 18 := by
+  have hz : wr (base.uninit 16) 0 (List.replicate 16 ((toU 8 (0 : Int)) % 256)) = List.replicate 16 0 ++ (base.uninit 16).drop 16 := by
+    have : (toU 8 (0 : Int)) % 256 = 0 := by decide
+    rw [this]; simp [wr]
+  have hv : rd (wr (List.replicate 16 0 ++ (base.uninit 16).drop 16) 0 ((if c.failIpv6 = true then [] else c.ipv6).take 16)) 0 16
+      = (if c.failIpv6 = true then zeros 16 else c.ipv6) := by
+    split
+    · simp [wr, rd, zeros]
+    · rw [List.take_of_length_le (by rw [hc.ipv6]; exact Nat.le_refl 16)]
+      simp [wr, rd, hc.ipv6]
+  have hl : (if c.failIpv6 = true then zeros 16 else c.ipv6).length = 16 := by
+    split
+    · rfl
+    · exact hc.ipv6
+  simp only [TW.setIPv6TLV, envOf, Nat.zero_add, Nat.add_zero, le_one, wr_off, wr_off0, hz, hv,
+    wr_zero_one, wr_one_one, wr_two, tlvIpv6, tlv, hl, X.tlvIpv6_val]
+  simp
+
+theorem setPerfCounterTLV_eq (hun : 8 ≤ (base.uninit 8).length) :
+    (TW.setPerfCounterTLV base (pre ++ w0 :: w1 :: rest) pre.length).buffer = pre ++ (tlvPerf ++ rest.drop 8)
+    ∧ (TW.setPerfCounterTLV base (pre ++ w0 :: w1 :: rest) pre.length).ret = 10 := by
+  have hb : ∀ u : List Nat, 8 ≤ u.length →
+      rd (wr (wr (wr (wr (wr (wr (wr (wr u (0 + 0) (le 1 (((1000000 >>> (Int.toNat (56 : Int))) &&& 255) % 256))) (0 + 1)
+        (le 1 (((1000000 >>> (Int.toNat (48 : Int))) &&& 255) % 256))) (0 + 2) (le 1 (((1000000 >>> (Int.toNat (40 : Int))) &&& 255) % 256))) (0 + 3)
+        (le 1 (((1000000 >>> (Int.toNat (32 : Int))) &&& 255) % 256))) (0 + 4) (le 1 (((1000000 >>> (Int.toNat (24 : Int))) &&& 255) % 256))) (0 + 5)
+        (le 1 (((1000000 >>> (Int.toNat (16 : Int))) &&& 255) % 256))) (0 + 6) (le 1 (((1000000 >>> (Int.toNat (8 : Int))) &&& 255) % 256))) (0 + 7)
+        (le 1 ((1000000 &&& 255) % 256))) 0 8 = be 8 1000000 := by
+    intro u hu
+    match u, hu with
+    | a0 :: a1 :: a2 :: a3 :: a4 :: a5 :: a6 :: a7 :: t, _ => simp [wr, rd]; decide
+  simp only [TW.setPerfCounterTLV, Nat.zero_add, Nat.add_zero, le_one, wr_off, wr_off0]
+  simp only [Nat.zero_add, Nat.add_zero, le_one] at hb
+  simp only [hb _ hun, wr_zero_one, wr_one_one, wr_two, tlvPerf, tlv, be_length, X.tlvPerfCounter_val]
+  simp
+
+end tlvs
